@@ -26,6 +26,10 @@ def gen_cases(rng, tier):
         c = gen_case(rng, maxlen=rng.choice([3, 6, 10]), p_rel=0.6)
         c['obs'] = ['plain', 'plain_dur_first', 'unrolled']
         cases.append(c)
+    for _ in range(24 if tier == 'quick' else 400):      # rarely met shapes (coregen.gen_structured)
+        c = coregen.gen_structured(rng)
+        c['obs'] = ['plain', 'plain_dur_first', 'unrolled']
+        cases.append(c)
     return cases
 
 
